@@ -71,6 +71,31 @@ func genString(r *rand.Rand) string {
 
 var plainKeys = []string{"a", "b", "to", "value", "_x", "A", "Z", "a1", "aa", "ab", "address", "amount", "k0", "k1", "k10", "k2", "name", "data", "list", "0", "1", "10", "2", "_", "__", "Value", "vAlue"}
 
+var specialKeys = []string{"a.b.c", "a.b", "k.v", ".", "..", "{", "}", "[", "]", `\\`, `\\0`, "", `a\\.b`, "x{y}", "[0]", "a.{b", "k}", `\\.`, "to.", ".value", "a b", "a,b", `q"uote`, "{a.b}", "[a.b]"}
+
+func hasSpecial(k string) bool {
+	return k == "" || strings.ContainsAny(k, `\\{}[].`)
+}
+
+// countSpecialKeys counts dictionary keys (at any depth) that are empty or contain an escaped character.
+func countSpecialKeys(v *sig.Val) int {
+	if v == nil {
+		return 0
+	}
+	n := 0
+	if v.Kind == sig.KDict {
+		for _, k := range v.Keys {
+			if hasSpecial(k) {
+				n++
+			}
+		}
+	}
+	for _, x := range v.Vals {
+		n += countSpecialKeys(x)
+	}
+	return n
+}
+
 func genKey(r *rand.Rand, ambiguous bool) string {
 	if ambiguous && r.Intn(3) == 0 {
 		switch r.Intn(4) {
@@ -83,6 +108,10 @@ func genKey(r *rand.Rand, ambiguous bool) string {
 		default:
 			return genString(r)
 		}
+	}
+	if r.Intn(5) == 0 {
+		// keys with the characters the format escapes, empty keys, keys that look like escapes
+		return specialKeys[r.Intn(len(specialKeys))]
 	}
 	if r.Intn(4) == 0 {
 		n := 1 + r.Intn(6)
@@ -638,6 +667,44 @@ func mutate(r *rand.Rand, tx *sig.Val, other *sig.Key) (*sig.Val, string) {
 				x.Vals = append(append([]*sig.Val{}, x.Vals[:i]...), x.Vals[i+1:]...)
 			}
 			name = "container-remove-item"
+		case (k == 6 || k == 0) && x.Kind == sig.KDict && len(x.Keys) >= 2 && r.Intn(2) == 0:
+			// {"a":"b","c":"d"} -> {"a.b.c":"d"}: the first two members in key order, when the first value is a string
+			idx := make([]int, len(x.Keys))
+			for i := range idx {
+				idx[i] = i
+			}
+			sort.Slice(idx, func(a, b int) bool { return x.Keys[idx[a]] < x.Keys[idx[b]] })
+			i0, i1 := idx[0], idx[1]
+			if x.Vals[i0].Kind != sig.KStr {
+				return nil, ""
+			}
+			nk := x.Keys[i0] + "." + x.Vals[i0].S + "." + x.Keys[i1]
+			v1 := x.Vals[i1]
+			k0 := x.Keys[i0]
+			k1 := x.Keys[i1]
+			x.Del(k0)
+			x.Del(k1)
+			if x.Get(nk) != nil {
+				return nil, ""
+			}
+			// keep it the smallest key so that the flattened text stands where the two members stood
+			x.Keys = append([]string{nk}, x.Keys...)
+			x.Vals = append([]*sig.Val{v1}, x.Vals...)
+			name = "dict-flatten-two-members-into-one-key"
+		case k == 6 && x.Kind == sig.KDict && len(x.Keys) >= 1 && r.Intn(2) == 0:
+			// nested -> flat: {"a":{"b":"c"}} -> {"a.{b":"c}"}  (same text if keys were written raw)
+			i := r.Intn(len(x.Keys))
+			in := x.Vals[i]
+			if in.Kind != sig.KDict || len(in.Keys) != 1 || in.Vals[0].Kind != sig.KStr {
+				return nil, ""
+			}
+			nk := x.Keys[i] + ".{" + in.Keys[0]
+			if x.Get(nk) != nil {
+				return nil, ""
+			}
+			x.Keys[i] = nk
+			x.Vals[i] = sig.Str(in.Vals[0].S + "}")
+			name = "dict-nested-to-flat-key"
 		case k == 6 && x.Kind == sig.KDict && len(x.Keys) >= 1:
 			i := r.Intn(len(x.Keys))
 			nk := x.Keys[i] + "x"
@@ -725,7 +792,7 @@ func quirkItems(v *sig.Val, skip map[string]bool) string {
 	sort.Slice(idx, func(a, b int) bool { return v.Keys[idx[a]] < v.Keys[idx[b]] })
 	parts := []string{}
 	for _, i := range idx {
-		parts = append(parts, v.Keys[i], quirkValue(v.Vals[i]))
+		parts = append(parts, sig.RefEscape(v.Keys[i]), quirkValue(v.Vals[i]))
 	}
 	return strings.Join(parts, ".")
 }
